@@ -39,7 +39,14 @@ func failingExpr(r *rand.Rand, kind int, v string) *Node {
 
 func failingStmt(r *rand.Rand, kind int, v string, n *int) []*Node {
 	nm := func() string { *n++; return fmt.Sprintf("w%d", *n) }
-	switch kind % 16 {
+	if kind%18 >= 16 {
+		e := Call(Id("hostfail"), Id(v)) // error returned by a host-provided function
+		if kind%18 == 17 {
+			return []*Node{Def(nm(), Bin("+", e, Int(1)))}
+		}
+		return []*Node{ExprS(e)}
+	}
+	switch kind % 18 {
 	case 12:
 		a := nm()
 		return []*Node{Def(a, Imm(Arr(Int(1)))), Set(a, []*Node{Int(0)}, "=", Int(2))} // not index-assignable
@@ -140,6 +147,47 @@ func errsProgram(r *rand.Rand, idx int) *Program {
 		}
 	}
 	p.Stmts = append(p.Stmts, Def(nm("after"), Int(1)))
+	p.Inputs = []Input{{Name: "hostfail", V: V{"k": "hostfn", "name": "hostfail"}}}
+	if depth >= 1 && r.Intn(3) == 0 {
+		// move the functions into a source module; the host function is handed down as an argument
+		// is not possible for a module (it sees builtins only), so keep host-error kinds in main
+		if kind%18 < 16 {
+			var defs, rest []*Node
+			var keys []string
+			var vals []*Node
+			for _, s := range p.Stmts {
+				if s.T == "def" && s.E != nil && s.E.T == "fn" {
+					defs = append(defs, s)
+					keys = append(keys, s.Name)
+					vals = append(vals, Id(s.Name))
+				} else {
+					rest = append(rest, s)
+				}
+			}
+			if len(defs) >= 2 && r.Intn(2) == 0 {
+				// two modules: the innermost (failing) function lives in lib1, which main imports first;
+				// its callers live in lib2, which imports lib1 itself
+				m1 := &Program{Stmts: []*Node{defs[0], Export(Map(keys[:1], vals[:1]))}}
+				m2st := []*Node{Def("l1", Import("lib1")), Def(keys[0], Sel(Id("l1"), keys[0]))}
+				m2st = append(m2st, defs[1:]...)
+				m2st = append(m2st, Export(Map(keys[1:], vals[1:])))
+				main := []*Node{Def("first", Import("lib1")), Def("lib", Import("lib2"))}
+				for _, k := range keys[1:] {
+					main = append(main, Def(k, Sel(Id("lib"), k)))
+				}
+				p.Stmts = append(main, rest...)
+				p.Modules = []Module{{Name: "lib1", Prog: m1}, {Name: "lib2", Prog: &Program{Stmts: m2st}}}
+			} else {
+				mod := &Program{Stmts: append(defs, Export(Map(keys, vals)))}
+				main := []*Node{Def("lib", Import("lib"))}
+				for _, k := range keys {
+					main = append(main, Def(k, Sel(Id("lib"), k)))
+				}
+				p.Stmts = append(main, rest...)
+				p.Modules = []Module{{Name: "lib", Prog: mod}}
+			}
+		}
+	}
 	return p
 }
 
